@@ -79,6 +79,13 @@ class Shape(tuple):
         return Shape(r) if isinstance(i, slice) else r
 
 
+class OneShot(tuple):
+    """A generator / map object: the elements are computed when it is created, but it can
+    be iterated only once (a second iteration yields nothing), as in Python."""
+
+    consumed = False
+
+
 class TV:
     """Abstract tensor: term + (optional) shape + dtype typestate + alias set."""
 
